@@ -886,7 +886,11 @@ func (r *run) localActions(n int) {
 		}
 		outs := pickNames(r.rng, outPool, 3)
 		ay := actionYAML(ins, outs)
-		writeFile(filepath.Join(root, "act", "action.yml"), ay)
+		// where the action lives and how the step spells it: a sub-directory, the repository root
+		// (`uses: ./`), with a trailing slash, nested deeper
+		loc := []struct{ dir, spec string }{{"act", "./act"}, {"", "./"}, {"act", "./act/"}, {"deep/er/act", "./deep/er/act"}}[k%4]
+		ayPath := filepath.ToSlash(filepath.Join(loc.dir, "action.yml"))
+		writeFile(filepath.Join(root, filepath.FromSlash(ayPath)), ay)
 		wpath := filepath.Join(root, ".github", "workflows", "w.yml")
 		writeFile(wpath, "on: push\njobs: {}\n")
 
@@ -903,7 +907,7 @@ func (r *run) localActions(n int) {
 		if len(outs) > 0 {
 			refs = []string{swapCase(outs[0]), undeclaredOut}
 		}
-		r.deriveAction(root, ins, outs)
+		r.deriveAction(root, loc.spec, ins, outs)
 		ss := shapes(all, req)
 		for i := 0; i < 3; i++ {
 			ss = append(ss, callShape{"random", randomCall(r.rng, all)})
@@ -918,10 +922,10 @@ func (r *run) localActions(n int) {
 			if sh.tag == "reserved-key" && lowerSet(all)[strings.ToLower(sh.with[len(sh.with)-1])] {
 				continue
 			}
-			src := stepWorkflow("./act", sh.with, refs)
+			src := stepWorkflow(loc.spec, sh.with, refs)
 			res := lintAlone(root, wpath, []byte(src))
 			want, ru := oracleStep(all, must, outs, false, false, true, sh.with, refs)
-			files := map[string]string{"act/action.yml": ay, ".github/workflows/w.yml": src}
+			files := map[string]string{ayPath: ay, ".github/workflows/w.yml": src}
 			if len(ru) > 0 {
 				w2 := []rep{}
 				for _, x := range want {
@@ -963,13 +967,15 @@ func b2i(b bool) int {
 	return 0
 }
 
-func (r *run) deriveAction(root string, ins []inDecl, outs []string) {
+func (r *run) deriveAction(root, spec string, ins []inDecl, outs []string) {
 	proj, err := actionlint.NewProject(root)
 	hx.Must(err)
-	m, _, err := actionlint.NewLocalActionsCache(proj, nil).FindMetadata("./act")
+	m, _, err := actionlint.NewLocalActionsCache(proj, nil).FindMetadata(spec)
 	hx.Must(err)
 	if m == nil {
-		hx.Must(fmt.Errorf("generated action not found in %s", root))
+		r.fails = append(r.fails, failure{What: "the metadata of a local action is not found for the spec `" + spec + "` although its action.yml exists: its interface is not checked at all",
+			Key: "local-action-not-found:" + spec, Files: map[string]string{}, Lint: []string{spec}})
+		return
 	}
 	var ts []string
 	for _, id := range hx.SortedKeys(m.Inputs) {
